@@ -101,7 +101,8 @@ func runPktNum(w *bufio.Writer, seed uint64, n int, _ []string) {
 		}
 		got := protocol.DecodePacketNumber(l, protocol.PacketNumber(largest), t)
 		// property monitor: sender-side guarantee => exact recovery
-		if la >= -1 && la <= largest && largest <= pn && pn-la <= 1<<31 && pn <= maxPN && int64(got) != pn {
+		// sender-side guarantee with the true window: the receiver may be up to 2^(8 len-1)-2 ahead (overtaking)
+		if tol := int64(1)<<(8*uint(l)-1) - 2; la >= -1 && la <= largest && largest <= pn+tol && pn-la <= 1<<31 && pn <= maxPN && int64(got) != pn {
 			fmt.Fprintf(w, "MONFAIL\tpktnum/decode-exact\ttruncated packet number decodes to %d, not to the sent %d\tpn=%d largestAcked=%d receiverLargest=%d len=%d wire=%d\n",
 				got, pn, pn, la, largest, l, t)
 		}
@@ -147,6 +148,14 @@ func runPktNum(w *bufio.Writer, seed uint64, n int, _ []string) {
 			}
 		}
 	}
+	// overtaken packets: receiver ahead by exactly the tolerance of the chosen length, one less, one more
+	for _, c := range [][2]int64{{70000, 69990}, {1 << 20, 1<<20 - 40000}, {1 << 33, 1<<33 - (1 << 24)}, {5, -1}} {
+		l := int64(protocol.PacketNumberLengthForHeader(protocol.PacketNumber(c[0]), protocol.PacketNumber(c[1])))
+		tol := int64(1)<<(8*uint(l)-1) - 2
+		for _, d := range []int64{1000, tol - 1, tol, tol + 1} {
+			emitSend(c[0], c[1], c[0]+d)
+		}
+	}
 	// the first packets of a connection (receiver's largest starts at 0)
 	for pn := int64(0); pn < 4; pn++ {
 		emitSend(pn, -1, 0)
@@ -179,7 +188,7 @@ func runPktNum(w *bufio.Writer, seed uint64, n int, _ []string) {
 		if lg < 0 {
 			lg = 0
 		}
-		if r.Chance(1, 12) { // receiver state outside the guarantee (reordering beyond the window)
+		if r.Chance(1, 6) { // the packet was overtaken: receiver ahead of it, inside or beyond the tolerance
 			lg = pn + int64(r.Intn(1<<17))
 		}
 		emitSend(pn, la, lg)
